@@ -639,6 +639,23 @@ fn boxed(ctx: &mut Ctx) {
             });
         }
     }
+    // request lists with repeated, ordered / unordered and specified ids (a constructor that sorts, merges or
+    // de-duplicates is not spec-exact)
+    for fi in 0..2u16 {
+        let ids = [1u32, 6, 21, 0, 0x1337, 17];
+        for len in 0..=4usize {
+            for code in 0..ids.len().pow(len as u32) {
+                let nums: Vec<u32> = (0..len).map(|i| ids[(code / ids.len().pow(i as u32)) % ids.len()]).collect();
+                leaf!(ctx, "InformationRequestHeaderTag::new", format!("flags={} requests {:?}", fi, nums), |ctx| {
+                    let fl = if fi == 0 { mh::HeaderTagFlag::Required } else { mh::HeaderTagFlag::Optional };
+                    let reqs: Vec<mh::MbiTagTypeId> = nums.iter().map(|&x| mh::MbiTagTypeId::new(x)).collect();
+                    let want = hd::words(hd::INFO_REQ, fi, &nums);
+                    let got = ctx.call("new", || { let t = mh::InformationRequestHeaderTag::new(fl, &reqs); built_hd(ctx_dummy(), &*t, &|b, t| hbattery::info_req(b, t)) });
+                    judge(ctx, "InformationRequestHeaderTag::new", "", got, &want, hd::decode(hd::INFO_REQ, &want), true);
+                });
+            }
+        }
+    }
     // documented preconditions: violating them must be a controlled panic
     leaf!(ctx, "ModuleTag::new(end <= start)", String::new(), |ctx| {
         match ctx.call("new", || ModuleTag::new(5, 5, "x").header().size) {
@@ -673,6 +690,7 @@ fn run(ctx: &mut Ctx) {
     let arena = Arena::new(1);
     ctx.bound("sized", "every sized constructor of both crates: a marker argument tuple, {0,1,MAX,MAX-1,0x80..} per argument, every single-byte perturbation of every argument with {00,01,02,04,08,10,20,40,80,FF}; enumerated arguments over all variants; as_bytes() at every address residue the type's alignment permits");
     ctx.bound("boxed_elf_arguments", "ElfSectionsTag::new: number 0/1/3/0xFFFF x entry size 40/64/0/48 x string-table index over EDGE32 + {0xFF00, 0xFFF1, 0xFFF2, 0xFF1F, 40, 64} x 11 section-data lengths (0..=192 bytes)");
+    ctx.bound("boxed_request_lists", "InformationRequestHeaderTag::new: every list of length 0..=4 over the ids {1, 6, 21, 0, 0x1337, 17} (repeated, unordered, specified and custom ids), both flags");
     ctx.bound("boxed_relational", "heap constructors with related contents: every text of length <= 4 over {a, NUL, e-acute} for the three string kinds (interior, leading, repeated, trailing NULs); every sequence of 1..=3 (thorough: 4) memory areas / EFI descriptors over 8 ranges that are equal, contiguous, overlapping, empty, entirely zero, of different type or end just below 2^64");
     ctx.bound("boxed_bound", "heap constructors: content lengths 0..=24 (quick) / 0..=40 (every padding residue at least three times) and the lengths around 8- and 16-bit counter boundaries (254..257, 4095..4097, 65534..65537); 0..=4, 10, 11, 255..257 memory areas / EFI descriptors; three framebuffer colour-info variants with palettes of 0..=8, 254..257, 1000 and 65535 colours; 0..=24, 255..257, 16383, 16384 information requests");
     sized_boot(ctx, &arena);
